@@ -259,10 +259,12 @@ func (self *Fork) vdrKillSome(partial *PartialVdrKillReport, done bool) (*VDRKil
 			}
 			self.deletePartialKill()
 		}
+		// If the final report was just written, say so: the caller adds
+		// the reports of finished forks to the pipestance total.
 		if partial == nil {
-			return nil, false
+			return nil, done
 		} else {
-			return &partial.VDRKillReport, false
+			return &partial.VDRKillReport, done
 		}
 	}
 	if partial == nil {
